@@ -157,15 +157,18 @@ class QueryPlanner:
 
         query_traversal(query, _prepare_integration_select)
 
-    def get_integration_select_step(self, select):
+    def get_integration_select_step(self, select, bare_name=None):
         if isinstance(select.from_table, NativeQuery):
             integration_name = select.from_table.integration.parts[-1]
         else:
             integration_name, table = self.resolve_database_table(select.from_table)
 
-            # is it CTE?
+            # is it CTE? A CTE is referenced by its bare name only: int1.t is a table even if a CTE t exists
+            # (the join planner passes bare_name because it has already put the integration in front)
+            if bare_name is None:
+                bare_name = len(select.from_table.parts) == 1
             table_name = table.parts[-1]
-            if integration_name == self.default_namespace and table_name in self.cte_results:
+            if bare_name and integration_name == self.default_namespace and table_name in self.cte_results:
                 select.from_table = None
                 return SubSelectStep(select, self.cte_results[table_name], table_name=table_name)
 
